@@ -29,8 +29,10 @@ def cases(draw):
     m = draw(st.integers(2, 12))
     recipe = draw(gen.problem_recipe(dims=(2, 3, 4, 5), densities=(m,)))
     iters = st.one_of(st.sampled_from([5, 20, 50, 100]), st.integers(5, 100))
-    params = {"r": draw(gen.r_values), "eps": max(draw(gen.eps_values(recipe["n"], m, cheap=False)), 2.0 ** (1 - m)),
-              "itersLimit": draw(iters)}
+    # eps above and below the cell size 2^-m of the configured grid (the budget bounds the run either way)
+    eps = draw(st.one_of(gen.eps_values(recipe["n"], m, cheap=False).map(lambda e: max(e, 2.0 ** (1 - m))),
+                         st.sampled_from([1e-4, 1e-3, 0.01, 0.05])))
+    params = {"r": draw(gen.r_values), "eps": eps, "itersLimit": draw(iters)}
     return {"recipe": recipe, "params": params, "drive": draw(st.sampled_from(["solve", "steps"]))}
 
 
